@@ -96,7 +96,7 @@ def make_ops(model: Model):
                     out.append(("UnicodeEncodeError", unparse(n)))
             elif isinstance(n.func, ast.Attribute) and n.func.attr == "index" and len(n.args) >= 1 and not isinstance(n.func.value, ast.Constant):
                 out.append(("ValueError", unparse(n)))
-            elif d == "range" and len(n.args) == 3 and not isinstance(n.args[2], ast.Constant):
+            elif d == "range" and len(n.args) == 3 and not (isinstance(n.args[2], ast.Constant) or isinstance(n.args[2], ast.UnaryOp) and isinstance(n.args[2].operand, ast.Constant)):
                 out.append(("ValueError", unparse(n)))
             elif d == "len" and n.args and K(n.args[0]) == "RAW" and not _type_checked(f, n, n.args[0]):
                 out.append(("TypeError", unparse(n)))
@@ -123,7 +123,7 @@ def make_ops(model: Model):
             elif k in ("DICT", "STREAM") and not isinstance(idx, ast.Slice):
                 if not _key_checked(f, n, n.value, idx):
                     out.append(("KeyError", unparse(n)))
-            elif k in ("LIST", "PAIRS") and not isinstance(idx, ast.Slice):
+            elif k in ("LIST", "PAIRS", "FPAIRS") and not isinstance(idx, ast.Slice):
                 if not _len_checked(f, n, n.value):
                     out.append(("IndexError", unparse(n)))
         elif isinstance(n, ast.BinOp):
@@ -135,6 +135,10 @@ def make_ops(model: Model):
                     if K(side) == "RAW" and not isinstance(side, ast.BinOp) and not _type_checked(f, n, side):
                         out.append(("TypeError", unparse(n)))
                         break
+        elif isinstance(n, ast.Compare) and len(n.ops) == 1 and isinstance(n.ops[0], (ast.In, ast.NotIn)) and K(n.comparators[0]) == "RAW":
+            # membership test on a value of unchecked type: `x in 5` raises TypeError
+            if not _type_checked(f, n, n.comparators[0]) and not _truthy_container(f, n, n.comparators[0]):
+                out.append(("TypeError", unparse(n)))
         elif isinstance(n, ast.Compare) and any(isinstance(o, (ast.Lt, ast.LtE, ast.Gt, ast.GtE)) for o in n.ops):
             for side in [n.left] + list(n.comparators):
                 if K(side) == "RAW" and not _type_checked(f, n, side):
@@ -296,6 +300,10 @@ def _type_checked(f: FuncInfo, node: ast.AST, val: ast.AST) -> bool:
         for c in [t] + list(ast.walk(t)):
             if isinstance(c, ast.Call) and (dotted(c.func) or "") in ("isinstance", "hasattr", "isnumber", "utils.isnumber") and c.args and unparse(c.args[0]) in cands:
                 return True
+            # "<str constant>" in X succeeded: only dictionaries (and PDFStream) of the object model have str keys -
+            # PDF strings are bytes and names are PSLiteral - so X supports [] and .get
+            if isinstance(c, ast.Compare) and len(c.ops) == 1 and isinstance(c.ops[0], ast.In) and isinstance(c.left, ast.Constant) and isinstance(c.left.value, str) and unparse(c.comparators[0]) == txt and c is not node:
+                return True
             if isinstance(c, ast.Compare) and isinstance(c.ops[0], (ast.Is, ast.Eq)) and unparse(c.left) in cands and isinstance(c.comparators[0], (ast.Name, ast.Attribute, ast.Constant)):
                 return not (isinstance(c.comparators[0], ast.Constant) and c.comparators[0].value is None)
         return False
@@ -365,6 +373,11 @@ def _key_checked(f: FuncInfo, node: ast.AST, cont: ast.AST, key: ast.AST) -> boo
     return False
 
 
+def _truthy_container(f: FuncInfo, node: ast.AST, val: ast.AST) -> bool:
+    """A truthiness test does not make a value a container (5 is truthy): no narrowing."""
+    return False
+
+
 def _len_checked(f: FuncInfo, node: ast.AST, seq: ast.AST) -> bool:
     stx = unparse(seq)
 
@@ -388,6 +401,8 @@ def _len_checked(f: FuncInfo, node: ast.AST, seq: ast.AST) -> bool:
             for i, v in enumerate(vals):
                 if any(x is node for x in ast.walk(v)) and any(has(p) for p in vals[:i]):
                     return True
+        if isinstance(n, ast.IfExp) and any(x is node for x in ast.walk(n.body)) and has(n.test):
+            return True
     for n in walk_no_nested(f.node):
         if isinstance(n, ast.Assert) and has(n.test) and getattr(n, "lineno", 0) < getattr(node, "lineno", 10**9):
             return True
@@ -405,6 +420,11 @@ for _a in ("CODE2CID", "IS_VERTICAL"):
 for _a in ("CID2UNICHR_H", "CID2UNICHR_V"):
     S(_P + "cmapdb.PyUnicodeMap.__init__", f"module.{_a}", "`module` is built by CMapDB._load_data from the library's own pickled resource, not from the document")
 S(_P + "lzw.LZWDecoder.feed", "bytes((c,))", "c ranges over range(256)")
+S(_P + "arcfour.Arcfour.process", "bytes((c ^ k,))", "c is a byte of the data and k an element of the permutation of 0..255 held in s: the xor is below 256")
+S(_P + "pdfdocument.PDFStandardSecurityHandler.authenticate_owner_password", "bytes((c ^ i,))", "c is a byte of an MD5 digest and i ranges over range(19, -1, -1): the xor is below 256")
+S(_P + "pdfdocument.PDFStandardSecurityHandler.compute_u", "bytes((c ^ i,))", "c is a byte of the key and i ranges over range(1, 20): the xor is below 256")
+S(_P + "pdfdocument.PDFStandardSecurityHandler.compute_encryption_key", "struct.pack('<L', self.p)", "self.p = uint_value(P, 32) lies in [0, 2**32) (C10-R5 decides the masking)")
+S(_P + "ccitt.CCITTG4Parser._flush_line", "self.width <= self._curpos", "reset() multiplied a list by self.width during construction: a width that is not an integer raised there (recorded finding), so it is an int here")
 S(_P + "pdfdocument.PDFDocument.find_xref", "int(prev)", "guarded by `if not prev.isdigit(): raise` (bytes.isdigit accepts ASCII digits only)")
 S(_P + "pdfdocument.PDFXRefFallback.load", "int(objid_s)", "objid_s matched (\\d+) on a latin-1 decoded line: ASCII digits only (no Nd character above 0x7F in latin-1)")
 S(_P + "pdfdocument.PDFXRefFallback.load", "int(genno_s)", "genno_s matched (\\d+) on a latin-1 decoded line: ASCII digits only")
